@@ -28,8 +28,8 @@ TRUSTED = ['modelled, not verified: CPython sorted() is a stable sort (insertion
            'harness mapping of python / numpy scalars to model values (as_primitive is exercised by the real cmp; the model starts from the primitive)']
 ASSUMPTIONS = ['ints are exact at any size (cmp compares ints exactly since /repo d277e58; adjacent ints beyond 2^53 and 10**30 are generated); floats are half-integers '
                'of magnitude < 2^50 or the exactly representable float(2**53), so python floats and the model\'s exact arithmetic agree', 'dict keys are hashable values of any, also mixed, types (items are ordered by cmp of their keys, as /repo does since 61f2e35)',
-               'pd.Timestamp, np.datetime64 and datetime.date are datetimes (one model value); +-inf rank with NaN by library design (`is_nan` documents "nan or inf")',
-               'sort / table cells: None, ints, finite floats, NaN, strings, datetimes (bools and +-inf only in the cmp laws, as the property says)']
+               'pd.Timestamp, np.datetime64 and datetime.date are datetimes (one model value); -inf < every finite number < +inf < NaN (fixes/C07-inf.patch; the pinned cmp ranked +-inf with NaN)',
+               'sort / table cells: None, ints, floats incl. +-inf and NaN, strings, datetimes (bools only in the cmp laws, as the property says; +-inf are generated for sort and tables since the repaired cmp agrees with python\'s native order on them)']
 EXHAUSTIVE = {'quick': False, 'thorough': False}
 
 # ------------------------------------------------------------------ value vocabulary
@@ -535,7 +535,8 @@ def rand_domain_scalar(rng, w=None):
     r = rng.random()
     if r < 0.12: return None
     if r < 0.52: return rand_num(rng)
-    if r < 0.64: return ['nan', rng.randrange(3)]
+    if r < 0.60: return ['nan', rng.randrange(3)]
+    if r < 0.64: return ['inf', rng.random() < 0.5]           # +-inf compare by value since fixes/C07-inf.patch
     if r < 0.86: return ['s', rng.choice(STRS)]
     return rand_date(rng)
 def rand_scalar(rng):
@@ -600,9 +601,9 @@ def rand_sort_list(rng, tier):
     n = rng.choice([0, 1, 2, 2, 3, 3, 4, 5, 6, 8] if tier == 'quick' else [0, 1, 2, 3, 4, 5, 6, 8, 10, 12])
     mode = rng.choice(['nums', 'nums', 'numsnan', 'numsnan', 'strs', 'dates', 'mixed', 'mixed', 'tuples', 'tuples', 'tuplesmixed', 'huge'])
     def sc(m):
-        if m == 'nums': return rand_num(rng)
+        if m == 'nums': return ['inf', rng.random() < 0.5] if rng.random() < 0.08 else rand_num(rng)
         if m == 'huge': return rng.choice(HUGE + [['i', 1], ['nan', 0]]) if rng.random() < 0.9 else rand_domain_scalar(rng)
-        if m == 'numsnan': return ['nan', rng.randrange(2)] if rng.random() < 0.3 else rand_num(rng)
+        if m == 'numsnan': return ['nan', rng.randrange(2)] if rng.random() < 0.3 else ['inf', rng.random() < 0.5] if rng.random() < 0.2 else rand_num(rng)
         if m == 'strs': return ['s', rng.choice(STRS)]
         if m == 'dates': return rand_date(rng)
         return rand_domain_scalar(rng)
@@ -624,7 +625,7 @@ def rand_column(rng, n, mode=None):
         elif mode == 'huge': out.append(rng.choice(HUGE + HUGE + [['i', 0], ['f', 1]]))
         elif mode == 'bin': out.append(rng.choice([['i', 0], ['i', 0], ['i', 0], ['i', 1], ['f', 0]]))      # few keys, big groups
         elif mode == 'nums': out.append(rng.choice([['i', rng.randrange(0, 3)], ['f', 2 * rng.randrange(0, 3)], ['f', rng.randrange(-2, 5)]]))
-        elif mode == 'numsnan': out.append(['nan', rng.randrange(2)] if rng.random() < 0.3 else ['i', rng.randrange(0, 3)])
+        elif mode == 'numsnan': out.append(['nan', rng.randrange(2)] if rng.random() < 0.3 else ['inf', rng.random() < 0.5] if rng.random() < 0.25 else ['i', rng.randrange(0, 3)])
         elif mode == 'strs': out.append(['s', rng.choice(STRS[:5])])
         elif mode == 'dates': out.append(['npd', rng.choice([D0, D0 + 1, D0 + DAYUS])] if rng.random() < 0.1 else rand_date(rng))      # datetime / pd.Timestamp / np.datetime64 of equal and unequal values
         elif mode == 'none': out.append(None if rng.random() < 0.6 else ['i', 1])
@@ -639,7 +640,7 @@ def rand_table(rng, tier, nmax=8):
     if rng.random() < 0.12:                    # the dictable constructor's own parameter names as column names
         names = [x for x in names if x not in ('columns', 'data')]
         extra = ['columns', 'data'] if rng.random() < 0.5 else [rng.choice(['columns', 'data'])]
-        names = (extra + names)[:ncol]; rng.shuffle(names)
+        names = (extra + names + [x for x in COLS if x not in names])[:ncol]; rng.shuffle(names)
     for c in names:
         m, cells = rand_column(rng, n)
         cols.append([c, cells]); modes[c] = m
